@@ -305,6 +305,7 @@ pub proof fn theorem_each_attribute_is_in_exactly_one_map(attrs: Seq<StructureTa
 //@lift name=SearchEntry::construct file=src/search.rs impl="impl\s+SearchEntry\s*\{" fn=construct
 //@ sub "fn construct(re: ResultEntry) -> SearchEntry" => "fn construct(re: ResultEntry) -> SearchEntry"
 //@ arg ".filter_map(|s|" => "&a_type, &mut bin_attr_vals, &mut any_binary"
+//@ sub "Self {" => "SearchEntry {" count=*
 //@ sub ".map(|t| t.expect_primitive()" => ".verif_map(|t| t.expect_primitive()"
 //@ closure at="|t| t.expect_constructed()" params="t: StructureTag" ret="(o: Option<Vec<StructureTag>>)"
             ensures o == (match t.payload { PL::P(_) => None::<Vec<StructureTag>>, PL::C(i) => Some(i) })
